@@ -324,6 +324,35 @@ pub fn run(ctx: &Ctx) -> Finish {
             }
         }
     });
+    // variable ids beyond 32 bits (ids are opaque 64-bit numbers: products of linear functions must keep them
+    // whole); the low halves of the large ids are themselves defined variables, so a truncated id is not
+    // rejected as undefined
+    ctx.seq(|l| {
+        const B1: u64 = (1 << 32) + 1;
+        const B2: u64 = (1 << 33) + 2;
+        let up = |i: u64| match i { 1 => B1, 2 => B2, o => o };
+        let big_layouts: [Vec<u64>; 2] = [vec![(1 << 40) + 9, B1, B2, 1, 2, 8], vec![B2, 2, 1, B1]];
+        for (oi, o) in objs.iter().enumerate() {
+            for (k, pa) in pool.iter().enumerate() {
+                let pb = &pool[(k * 5 + 3) % pool.len()];
+                let ren = |f: &Option<FnRep>| f.as_ref().map(|f| super::c01::rename(f, &up));
+                let inst = InstRep {
+                    sense: if (oi + k) % 2 == 0 { SENSE_MIN } else { SENSE_MAX },
+                    objective: ren(o),
+                    vars: big_layouts[(oi + k) % 2].iter().map(|id| VarRep::new(*id, KIND_CONTINUOUS, None)).collect(),
+                    constraints: vec![ConRep::new(5, pa.0, ren(&pa.1)), ConRep::new(3, pb.0, ren(&pb.1)).with_meta("m")],
+                    removed: vec![RemRep { constraint: ConRep::new(77, LE_ZERO, ren(&cfs[2])), reason: "earlier".into(), parameters: vec![] }],
+                    ..Default::default()
+                };
+                for uniform in [false, true] {
+                    l.states += 1;
+                    let weights = if uniform { vec![2.0] } else { vec![-0.5, 2.0] };
+                    let state = vec![(B1, [0.5, -1.0, 2.0][k % 3]), (B2, [2.0, -1.0][oi % 2]), (1, 0.25), (2, -3.0)];
+                    check_case(l, &Case { inst: inst.clone(), uniform, weights, state });
+                }
+            }
+        }
+    });
     // full weight grid x states on a small set of instances
     ctx.seq(|l| {
         let a = &active_lists[active_lists.len() - 5];
@@ -348,7 +377,7 @@ pub fn run(ctx: &Ctx) -> Finish {
     Finish {
         level: "model_checking",
         rule: "every instance of the product objective(10) x active constraint lists (0..3, functions absent/constant/linear/quadratic, both equalities) x pre-existing removed lists (0..2) x {variable-id layout, dependency, hints, sense} through both penalty methods; oracle: no active constraint left, every input constraint (already-removed ones included) kept with id/function/equality, fresh tagged weight parameters not colliding with variable ids, objective == f + sum w_c g_c^2 as a polynomial identity in (x, w), plus with_parameters+evaluate on a weight/state grid; non-trivial = at least one active constraint".into(),
-        bounds: json!({"active_max": 3, "removed_max": 2, "weight_grid": weight_grid, "variable_id_layouts": layouts}),
+        bounds: json!({"active_max": 3, "removed_max": 2, "weight_grid": weight_grid, "variable_id_layouts": layouts, "wide_variable_ids": ["2^32+1", "2^33+2", "2^40+9"]}),
         exhaustive: t,
     }
 }
